@@ -33,6 +33,7 @@ pub enum RulePatternPart
 {
     Whitespace,
     Exact(char),
+    ExactGlued(char),
     ParameterIndex(usize),
 }
 
@@ -118,6 +119,12 @@ pub fn resolve_rule(
                 {
                     exact_parts += 1;
                     RulePatternPart::Exact(*c)
+                },
+
+                asm::AstRulePatternPart::ExactGlued(c) =>
+                {
+                    exact_parts += 1;
+                    RulePatternPart::ExactGlued(*c)
                 },
                 
                 asm::AstRulePatternPart::Parameter(ast_param) =>
